@@ -189,6 +189,10 @@ example : ValidCdf 8 8 [0, 100, 200, 0] :=
   Contiguous.fromNonzeroFixedPoint_valid (B := 8) (P := 8) (probs := [100, 100]) (infer := true)
     (m := { cdf := [0, 100, 200, 0] }) (by decide) (by decide) (by decide) (by decide)
 
+example : ValidExt 8 [0, 100, 200, 256] := ⟨by decide, by decide, by decide, by decide⟩
+/-- a lookup table satisfying `LookupOK` exists (the constructor builds one) -/
+example : ∃ m, Lookup.fromNonzeroFixedPoint 8 2 [1, 3] false = some m := ⟨_, rfl⟩
+
 #print axioms C05_generic_conversions
 #print axioms C05_contiguous_symbol_table
 #print axioms C05_contiguous_lookup
